@@ -206,16 +206,20 @@ BOUNDS_TEXT = ("inductive steps from ANY state of the sending machinery satisfyi
                "writeSequence of two chunks, requestDone, abort, registerProducer, transport pause/resume).  quick: "
                "1 stream in full for all three steps; 2 streams for the reactor turn with the second stream in a "
                "reduced state set (no producer, not finished, <= 1 chunk) and for the connection-level "
-               "WINDOW_UPDATE with both streams reduced.  thorough: additionally 2 streams for every peer frame / "
-               "operation (second stream reduced) and for the turn with the second stream in any state with <= 1 "
-               "chunk.  Histories from a fresh connection (requests through the real dataReceived -> "
+               "WINDOW_UPDATE with both streams reduced.  thorough: additionally 2 streams (second reduced) for "
+               "every application / transport operation and every peer frame with the loop scheduled or asleep "
+               "(asleep: first stream without producer), and for the turn with the second stream in any state "
+               "with <= 1 chunk.  Histories from a fresh connection (requests through the real dataReceived -> "
                "_requestReceived, push producer on stream 0): optional first turn that puts the loop to sleep, "
                "hist = 2 operations of any size / increment <= cap, then a liveness phase (fair scheduler: no "
                "stream may keep queued data with an open window) and a drain phase (all windows opened: complete "
                "body, END_STREAM once, producer not left paused, loop asleep).  quick: 1 stream, alphabet write / "
                "requestDone / WINDOW_UPDATE stream / connection / SETTINGS_INITIAL_WINDOW_SIZE / abort / turn; "
-               "thorough: also 1 stream with writeSequence / SETTINGS_MAX_FRAME_SIZE / transport pause / resume "
-               "as first operation, and 2 streams (reduced alphabet, first operation a write or a peer frame)")
+               "thorough: 1 stream with any second operation after requestDone / a peer frame / abort / a turn (after a "
+               "write: second operation without max-frame-size / pause / resume), 1 stream with "
+               "writeSequence / SETTINGS_MAX_FRAME_SIZE / transport pause as first operation followed by write / "
+               "requestDone / peer frame / turn, and 2 streams: a write on stream 0 followed by WINDOW_UPDATE "
+               "(either stream / connection) or SETTINGS_INITIAL_WINDOW_SIZE")
 OUTSIDE = ["the real h2 frame codec / state machine and the real `priority` tree: both are replaced by contract "
            "models (see ASSUMPTIONS); weights and dependencies of the priority tree (only 'some unblocked stream' "
            "is assumed, so any weighting is covered, fairness is assumed only for the liveness phase)",
@@ -230,7 +234,8 @@ OUTSIDE = ["the real h2 frame codec / state machine and the real `priority` tree
            "CPU cost: a schedulable stream whose window is closed makes _sendPrioritisedData re-schedule itself "
            "with callLater(0) without progress until the peer opens the window (observed, not a violation of "
            "this property)",
-           "histories longer than hist operations end-to-end (covered only through the inductive steps)"]
+           "histories longer than hist operations end-to-end, and two-stream histories other than write + peer "
+           "frame (covered only through the inductive steps)"]
 ASSUMPTIONS = ["fake `priority` module (the package is not installed): PriorityTree with insert_stream (streams start "
                "unblocked; DuplicateStreamError), remove_stream / block / unblock / reprioritize (MissingStreamError "
                "for unknown ids), next(tree) = SOME unblocked stream, chosen by the solver in the turn step and in "
@@ -1210,11 +1215,13 @@ def _hist_shards(tier):
     if tier == "quick":
         return _QUICK_HIST
     # one stream: pairs whose first operation is writeSequence / SETTINGS_MAX_FRAME_SIZE / transport pause,
-    # followed by a write, requestDone, peer frame or turn; two streams: a write followed by a peer frame
+    # followed by a write, requestDone, peer frame or turn; two streams: a write on the producer-fed stream 0
+    # followed by a peer frame (WINDOW_UPDATE for either stream / the connection, SETTINGS_INITIAL_WINDOW_SIZE)
     return (_QUICK_HIST
             + [("ns == 1", "o0 == 1", "o1 == %d" % b2) for b2 in (2, 3, 4, 5, 8)]
             + [("ns == 1", "o0 == %d" % a, "o1 == %d" % b2) for a in (6, 9) for b2 in (0, 2, 3, 4, 5, 8)]
-            + [("ns == 2", "o0 == 0", "o1 == %d" % b2, c) for b2 in (3, 4, 5) for c in ("idle0", "not idle0")])
+            + [("ns == 2", "o0 == 0", "k0 == 0", "o1 == %d" % b2, c) for b2 in (3, 4, 5)
+               for c in ("idle0", "not idle0")])
 
 
 HARNESSES = [
